@@ -190,21 +190,24 @@ PROPS = {
         "assumptions": CTL_ASSUMPTIONS,
     },
     "C08": {
-        "batches": ctl_batches("pool", 1500, 30000),
+        "batches": lambda tier: ctl_batches("pool", 1500, 30000)(tier) + [{"bin": "pristine", "args": ["srv", "burst", 10 if tier != "thorough" else 100], "name": "pristine bursts of keep-alive connections"}],
         "replay_bin": "controlled", "oracle_col": "C08", "agree_col": "aC08",
         "rule": "TaskPool of the generated copy under the deterministic scheduler: bursts of 1..40 tasks (gaps 0 / 10 us / 1 ms / 6 s, before or after the initial workers "
                 "went idle), tasks block on a gate that stays shut (keep-alive connections that never end) or end at once; random schedules; every run replayed on the Lean "
                 "LTS (dispatch branch, which worker starts which task); predicate: every dispatched task started although no task ended",
-        "required_tags": ["tasks:5", "tasks:gt16", "tasks:le4", "newthread:1", "queued:1", "presettle:0", "presettle:1"],
+        "required_tags": ["tasks:5", "tasks:gt16", "tasks:le4", "newthread:1", "queued:1", "presettle:0", "presettle:1", "srv:burst:5", "srv:burst:16"],
         "partial": ["theorem: every queued task is claimed by a woken worker (for all burst patterns and schedules); conservation and at-most-once start",
                     "whole-server isolation over real sockets (N simultaneous keep-alive connections) is sampled by the pristine burst batch"],
         "assumptions": CTL_ASSUMPTIONS,
     },
     "C20": {
-        "batches": ctl_batches("pool", 1500, 30000),
+        "batches": lambda tier: ctl_batches("pool", 1500, 30000)(tier) + [
+            {"bin": "pristine", "args": ["srv", "drop", 6 if tier != "thorough" else 60], "name": "pristine server drop (tcp/unix)"},
+            {"bin": "pristine", "args": ["srv", "reclaim", 5], "name": "pristine thread reclamation, burst of 5"},
+            {"bin": "pristine", "args": ["srv", "reclaim", 40], "name": "pristine thread reclamation, burst of 40"}],
         "replay_bin": "controlled", "oracle_col": "C20", "agree_col": "aC20",
         "rule": "same pool scenarios continued: gates opened, virtual time advanced past the idle period, live worker threads counted; then the pool is dropped and time advanced again",
-        "required_tags": ["timeoutwake:1", "burstlive:gt4", "burstlive:le4"],
+        "required_tags": ["timeoutwake:1", "burstlive:gt4", "burstlive:le4", "srv:drop-tcp", "srv:drop-unix", "srv:reclaim:40"],
         "partial": ["theorem: at most MIN_THREADS untimed waiters / idle pool at baseline / retirement strands no task / accept loop stops after at most one more accept / handed-out requests stay answerable",
                     "observed only: connect() refused after drop, UNIX socket path removed, real thread counts (/proc/self/task)"],
         "assumptions": CTL_ASSUMPTIONS,
